@@ -217,6 +217,10 @@ def check_with(case, obs, quirks):
                     "response %d data set differs from the handler's: %s" % (i, _diff(d, m["data"])))
             else:
                 c["datasets_compared"] = c.get("datasets_compared", 0) + 1
+        elif d is None and dimse == "C-FIND" and e["kind"] == "final" and m["has_data"]:
+            add("C21|dataset|C-FIND|unexpected-dataset|final|%s" % svc["family"],
+                "final response %d (status %s) carries a data set (%d elements) although the handler supplied none for it" % (
+                    i, _hx(m["status"]), len(m["data"] or [])))
         elif d is None and single and m["has_data"]:
             add("C21|dataset|%s|unexpected-dataset" % dimse,
                 "response %d (status %s) carries a data set although the handler supplied none / an invalid one: %r" % (
